@@ -408,7 +408,7 @@ def check_module(stats, rnd, text, leaves, bools, tight, n_random):
         # 64-bit gate by evaluation: run-time operators only (comparisons included)
         def gate():
             nonlocal nfail
-            if e.which_expression == "function" and nonconst and runtime.get(id(e)) and not ir_util.is_constant_type(e.type):
+            if e.which_expression == "function" and runtime.get(id(e)) and not ir_util.is_constant_type(e.type):
                 try:
                     group = list(vals)
                     for a in e.function.args:
